@@ -86,6 +86,35 @@ int verif_snprintf(char *buf, size_t n, const char *fmt, ...)
         char piece[16];
         int len = 0, i, f = 0, plen;
         va_start(ap, fmt);
+        /* fast paths for the six format strings of the current cat.c: small fixed-size text, no interpreter (the general
+         * path below costs ~10x more SSA steps per call because every piece is copied at a symbolic offset) */
+        if (fmt[0] == '%' && (fmt[1] == 'd' || fmt[1] == 'u') && fmt[2] == 0) {
+                char t16[16];
+                if (fmt[1] == 'd') {
+                        int32_t v = va_arg(ap, int32_t);
+                        int64_t w = v;
+                        len = verif_fmt_dec(t16, (uint64_t)(w < 0 ? -w : w), w < 0);
+                } else {
+                        uint32_t v = va_arg(ap, uint32_t);
+                        len = verif_fmt_dec(t16, v, 0);
+                }
+                va_end(ap);
+                return verif_emit(buf, n, t16, len);
+        }
+        if (fmt[0] == '%' && fmt[1] == '0' && fmt[2] == '2' && fmt[3] == 'X' && fmt[4] == 0) {
+                char t16[16];
+                uint32_t v = va_arg(ap, uint32_t);
+                len = verif_fmt_hex(t16, v, 2, 0);
+                va_end(ap);
+                return verif_emit(buf, n, t16, len);
+        }
+        if (fmt[0] == '0' && fmt[1] == 'x' && fmt[2] == '%' && fmt[3] == '0' && (fmt[4] == '2' || fmt[4] == '4' || fmt[4] == '8') && fmt[5] == 'X' && fmt[6] == 0) {
+                char t16[16];
+                uint32_t v = va_arg(ap, uint32_t);
+                len = verif_fmt_hex(t16, v, fmt[4] - '0', 1);
+                va_end(ap);
+                return verif_emit(buf, n, t16, len);
+        }
         for (i = 0; i < 12; i++) {
                 char c = fmt[f];
                 if (c == 0)
